@@ -293,6 +293,10 @@ func checkC08(p *core.Program, r *core.Report) {
 		const R6 = "C08.R6 no-lock-left-held"
 		r.Rule(R6, "no repo function returns on some path with a mutex it acquired still locked (lock wrappers and deferred unlocks excepted): the next acquirer - e.g. the receive loop stopping the handshake timer - blocks for ever")
 		checkLockLeaks(p, r, R6, p.RepoFuncs())
+		const R7 = "C08.R7 close-path-cannot-wedge"
+		r.Rule(R7, "a local close never reports a connection error upward (shared with C11.R7: the report re-enters the close-once of the SHIP connection on the goroutine that is inside it and blocks the receive loop for ever - an over-long close reason built from peer bytes is enough to make the close frame write fail) and the close routine releases blocked writers on every path (shared with C13.R1)")
+		importRules(p, r, "C11", map[string]string{"C11.R7 transport-end-is-reported": R7}, func(key string) bool { return strings.Contains(key, "never reports") })
+		importRules(p, r, "C13", map[string]string{"C13.R1 close-routine-releases": R7}, nil)
 	}()
 	ensureCallSites(p)
 	const R1 = "C08.R1 panic-obligations"
